@@ -136,4 +136,103 @@ PROPS = {
         "level_note": "Proof modulo the containment oracle (external crate). The gate subsume_possible and the lazy-lexeme "
                       "exclusion are not proved to imply oracle soundness; a wrong gate shows up as a mask difference in the harness.",
     },
+    "C01": {
+        "runner": "RunEngine",
+        "theorems": ["C01_mask_is_per_token_test", "C01_mask_iff_commit", "C01_mask_iff_validate",
+                     "C01_validate_is_longest_committable_prefix", "C01_accepting_is_pure", "C01_mask_well_formed",
+                     "C01_no_internal_assertion"],
+        "rule": "random CFGs over regex terminals (literals, classes, repetition; recursion, empty productions, ambiguity) x "
+                "vocabularies (single-byte; 256 bytes + multi-byte tokens spanning lexemes, ending inside UTF-8 characters, "
+                "duplicates) x mask-guided walks; at every visited state the implementation is asked, for EVERY token id: in mask? "
+                "validate = 1? commit on a deep clone ok? plus EOS-in-mask vs is_accepting and validate(sequence) vs one-by-one commits; "
+                "the op list is replayed on the extracted model (masks, counts, accept flags, stop reasons compared). "
+                "distinct = distinct session text; non-trivial = sessions with a multi-byte token in some mask or >= 2 commits",
+        "trusted_base": ["modelled, not verified: parser/src/earley/{parser,lexer,regexvec}.rs, tokenparser.rs, matcher.rs for the core fragment "
+                         "(coq/Lexer.v, Earley.v, Engine.v, TokParser.v); not modelled: hidden bytes / stop= / max_tokens / temperature / "
+                         "nested grammars / captures / numeric-token commits / %ignore",
+                         "external: derivre (regex derivatives, emptiness, forced-end) replaced by the textbook definitions of coq/Regex.v",
+                         "bin/gen_params.py maps 'rollback() resets bias_cache' to ROLLBACK_CLEARS_CACHE",
+                         "resource-limit accounting (item counts) is not part of the correspondence: sessions that hit a limit are skipped and counted"],
+        "assumptions": ["core fragment: grammars without max_tokens=, stop=, temperature=, backtracking; non-canonical tokenizer "
+                        "(the forced-token narrowing of canonical tokenizers is C13)"],
+        "level_text": "Theorems for every grammar/vocabulary/reachable state/token: the imperative engine (shared row array, virtual "
+                      "stack, speculative row reuse, mask cache) refines a pure byte-level engine; hence mask bit = per-token test = "
+                      "commit success = validation count, validate(sequence) = longest committable prefix, accepting flag = pure "
+                      "acceptance, no id >= vocab, no internal assertion. Tied to /repo by replaying implementation sessions on the "
+                      "extracted model and by evaluating the property itself on the implementation for every token at every state.",
+        "level_note": "EOS-in-mask <-> accepting and the Matcher wrapper are in the executable model (TokParser.v) and compared on every "
+                      "session, but not covered by a theorem.",
+    },
+    "C02": {
+        "runner": "RunEngine",
+        "theorems": ["C02_commit_split_irrelevant", "C02_multibyte_iff_bytewise", "C02_run_concatenation", "C02_allowed_iff_bytes_accepted"],
+        "rule": "same grammar under a multi-byte vocabulary A and the single-byte vocabulary B: mask-guided histories under A, "
+                "replayed byte by byte under B; masks projected on common tokens, EOS, accepting and stop status compared after "
+                "every token; every multi-byte token of A checked against byte-wise validation under B at every state; both sessions "
+                "replayed on the model. non-trivial = sessions with more than two ops",
+        "trusted_base": ["modelled, not verified: parser/src/earley/{parser,lexer,regexvec}.rs, tokenparser.rs, matcher.rs for the core fragment "
+                         "(coq/Lexer.v, Earley.v, Engine.v, TokParser.v); not modelled: hidden bytes / stop= / max_tokens / temperature / "
+                         "nested grammars / captures / numeric-token commits / %ignore",
+                         "external: derivre (regex derivatives, emptiness, forced-end) replaced by the textbook definitions of coq/Regex.v",
+                         "bin/gen_params.py maps 'rollback() resets bias_cache' to ROLLBACK_CLEARS_CACHE",
+                         "resource-limit accounting (item counts) is not part of the correspondence: sessions that hit a limit are skipped and counted"],
+        "assumptions": ["core fragment"],
+        "level_text": "Theorems: committing w1 then w2 leaves the same pure state as committing w1++w2; a token is allowed exactly when "
+                      "its bytes are accepted one at a time by the pure engine (whose state does not mention tokens). Implementation: "
+                      "two vocabularies in lock-step on the same byte strings.",
+        "level_note": "Token bookkeeping that is outside the pure state (token indices, byte_to_token) is modelled only as a length.",
+    },
+    "C11": {
+        "runner": "RunEngine",
+        "theorems": ["C11_cache_invalidation_irrelevant", "C11_mask_twice", "C11_queries_leave_no_trace",
+                     "C11_masks_depend_only_on_pure_state"],
+        "rule": "random interleavings of mask / commit / validate / accepting / forced-bytes / invalidate on three implementation "
+                "engines in lock-step (as generated; invalidating the cache before every mask; fresh engine replaying the commits), "
+                "corpus of minimised failures first; op lists replayed on the model. non-trivial = sessions with more than six ops",
+        "trusted_base": ["modelled, not verified: parser/src/earley/{parser,lexer,regexvec}.rs, tokenparser.rs, matcher.rs for the core fragment "
+                         "(coq/Lexer.v, Earley.v, Engine.v, TokParser.v); not modelled: hidden bytes / stop= / max_tokens / temperature / "
+                         "nested grammars / captures / numeric-token commits / %ignore",
+                         "external: derivre (regex derivatives, emptiness, forced-end) replaced by the textbook definitions of coq/Regex.v",
+                         "bin/gen_params.py maps 'rollback() resets bias_cache' to ROLLBACK_CLEARS_CACHE",
+                         "resource-limit accounting (item counts) is not part of the correspondence: sessions that hit a limit are skipped and counted"],
+        "assumptions": ["core fragment; sessions hitting a resource limit are skipped (counted in input_distribution)"],
+        "level_text": "Theorems: every mask of a reachable state equals mask_spec of the pure top frame — with or without a cache hit, "
+                      "with or without speculative row reuse — hence invalidating the cache, asking twice, or interleaving read-only "
+                      "queries never changes a mask. Requires that rollback resets the cache, which is re-read from parser.rs each run.",
+        "level_note": "is_accepting_cache / ff_tokens_cache of TokenParser are in the executable model, compared but not proved.",
+    },
+    "C12": {
+        "runner": "RunEngine",
+        "theorems": ["C12_rollback_restores", "C12_rollback_many", "C12_same_mask_after_rollback", "C12_same_accepting_after_rollback"],
+        "rule": "as C11 plus rollback(k) / reset: after every successful rollback every observable (mask, accepting, forced bytes, "
+                "stop status) of the implementation is compared with a fresh engine that never saw the tokens; corpus first "
+                "(the stale-cache history); op lists replayed on the model. non-trivial = sessions with more than six ops",
+        "trusted_base": ["modelled, not verified: parser/src/earley/{parser,lexer,regexvec}.rs, tokenparser.rs, matcher.rs for the core fragment "
+                         "(coq/Lexer.v, Earley.v, Engine.v, TokParser.v); not modelled: hidden bytes / stop= / max_tokens / temperature / "
+                         "nested grammars / captures / numeric-token commits / %ignore",
+                         "external: derivre (regex derivatives, emptiness, forced-end) replaced by the textbook definitions of coq/Regex.v",
+                         "bin/gen_params.py maps 'rollback() resets bias_cache' to ROLLBACK_CLEARS_CACHE",
+                         "resource-limit accounting (item counts) is not part of the correspondence: sessions that hit a limit are skipped and counted"],
+        "assumptions": ["grammars that support rollback (no stop= / max_tokens=)"],
+        "level_text": "Theorems: rolling back the bytes of one or many commits restores the pure stack, the committed bytes and an empty "
+                      "cache, hence the same mask and accepting flag as before the commits. Token-level rollback (byte lengths of "
+                      "tokens, EOS = 0 bytes) is in the executable model and compared.",
+        "level_note": "The token-to-byte-length bookkeeping of TokenParser::rollback is compared, not proved.",
+    },
+    "C18": {
+        "disabled": True,
+        "runner": "Run18",
+        "theorems": [],
+        "rule": "(a) stop controller: vocabularies with tokens splitting UTF-8 characters, special and empty tokens; 0-2 stop strings "
+                "(overlapping), optional stop regex, stop tokens; random segmentations of text containing stop candidates, one third "
+                "of the streams not valid UTF-8; compared with the model: total text (valid streams), stopped flag after every token; "
+                "implementation-only: nothing after stop, no split character. (b) Constraint: random call sequences with illegal calls "
+                "(commit without mask, token not in mask, id out of range, calls after stop); the text of every stopped run is judged "
+                "by the CFG specification. (c) Matcher sessions with illegal tokens replayed on the model",
+        "trusted_base": ["modelled, not verified: stop_controller.rs (coq/StopCtrl.v: live partial matches instead of the derivre DFA with "
+                         "lookahead), matcher.rs / tokenparser.rs stop logic (coq/TokParser.v); Constraint is not modelled (implementation-only)"],
+        "assumptions": ["'first occurrence' = the first stop match to complete in the stream; when several end at the same byte the shortest is removed"],
+        "level_text": "see theorems in Properties/C18.v (stop controller) plus differential checks of the protocol",
+        "level_note": "Constraint-level protocol properties are checked differentially only.",
+    },
 }
